@@ -255,3 +255,125 @@ Proof.
     + rewrite HD. change (dataDescriptor64Len - dataDescriptorLen) with 8. destruct md; cbn [adv]; lia.
   - destruct Hd.
 Qed.
+
+(* ------------------------------------------------------------------ all members, one pass (random access or streaming) *)
+Lemma locals_cons m ms : locals (m :: ms) = sp_local m ++ locals ms.
+Proof. reflexivity. Qed.
+Lemma total_sizes_locals : forall md ms fs pre post pos,
+  Forall local_ok ms -> placed (zlen pre) ms fs -> zlen pre + zlen (locals ms) < 2 ^ 63 -> pos <= zlen pre ->
+  total_sizes md (rd_bytes (pre ++ locals ms ++ post)) pos fs = Ok (map sized_of ms).
+Proof.
+  intros md ms. induction ms as [|m ms IH]; intros fs pre post pos Hok Hpl Hbig Hpos.
+  - inversion Hpl; subst. reflexivity.
+  - inversion Hpl as [|o m' ms' f fs' (Ho & Hc & Hu & Hcr) Hrest]; subst. inversion Hok as [|? ? Hm Hms]; subst.
+    rewrite locals_cons in *. rewrite zlen_app in Hbig. pose proof (zlen_nonneg (locals ms)).
+    cbn [total_sizes]. rewrite <- app_assoc.
+    destruct (total_size_local md m pre (locals ms ++ post) f pos Hm Ho Hc Hu Hcr) as (pos' & E & Hp'); [lia|exact Hpos|].
+    rewrite E. cbn [bind fst snd].
+    replace (pre ++ sp_local m ++ locals ms ++ post) with ((pre ++ sp_local m) ++ locals ms ++ post) by now rewrite <- app_assoc.
+    rewrite (IH fs' (pre ++ sp_local m) post pos'); [reflexivity|assumption| |rewrite zlen_app; lia|rewrite zlen_app; lia].
+    rewrite zlen_app. exact Hrest.
+Qed.
+
+(* ------------------------------------------------------------------ GetOriginalDirectory *)
+Lemma get_original_panics r d trim :
+  god_is_new (fld eocd_off_Signature eocd_w_Signature (d_end d)) = false -> get_original r d trim = Panic P_NIL.
+Proof. intros H. unfold get_original. rewrite H. reflexivity. Qed.
+
+(* ------------------------------------------------------------------ FindDirectory on APPNOTE end records *)
+Ltac sfield ws i :=
+  match goal with |- context [fld ?o ?w (enc_struct ws ?vs)] =>
+    change o with (off_of i ws); change w with (nth i ws 0);
+    rewrite (fld0 ws vs i) by (try reflexivity; try (unfold ws; wsok); cbn; lia)
+  end; cbn [nth ws].
+
+Lemma seq_loc l : zlen l = 42 -> seq_take (firstn 2 fd_read_order) 1 l = ztake 20 l.
+Proof.
+  intros H. unfold fd_read_order. cbn [firstn seq_take]. change (struct_size 1) with 20. change (1 =? 1) with true. cbv iota.
+  replace (zlen l <? 20) with false by lia. reflexivity.
+Qed.
+Lemma seq_end l : zlen l = 42 -> seq_take (firstn 2 fd_read_order) 2 l = zdrop 20 l.
+Proof.
+  intros H. unfold fd_read_order. cbn [firstn seq_take]. change (struct_size 1) with 20. change (struct_size 2) with 22.
+  change (1 =? 2) with false. change (2 =? 2) with true. cbv iota.
+  replace (zlen l <? 20) with false by lia. rewrite zlen_zdrop by lia. replace (zlen l - 20 <? 22) with false by lia.
+  apply ztake_all. rewrite zlen_zdrop; lia.
+Qed.
+
+Definition eocd_of (count cdsize cdoff : Z) : bytes := enc_struct apn_eocd_widths [A_EOCD_SIG; 0; 0; count; count; cdsize; cdoff; 0].
+Lemma eocd_len a b c : zlen (eocd_of a b c) = 22.
+Proof. unfold eocd_of. rewrite zlen_enc_struct; [reflexivity|reflexivity|unfold apn_eocd_widths; wsok]. Qed.
+
+(* no ZIP64 records: the end record is the last 22 bytes and holds the directory offset *)
+Lemma find_directory_plain : forall x count cdsize cdoff,
+  20 <= zlen x -> 0 <= count < 65535 -> 0 <= cdsize < 4294967295 -> 0 <= cdoff < 4294967295 ->
+  find_directory (rd_bytes (x ++ eocd_of count cdsize cdoff)) (zlen (x ++ eocd_of count cdsize cdoff)) = Ok cdoff.
+Proof.
+  intros x count cdsize cdoff Hx Hc Hs Ho. unfold find_directory, fd_pos.
+  change (directoryEndLen + directory64LocLen) with 42. change directoryEndLen with 22. change directory64LocLen with 20.
+  set (E := eocd_of count cdsize cdoff). pose proof (eocd_len count cdsize cdoff) as HE. fold E in HE.
+  rewrite zlen_app, HE.
+  assert (H2 : zlen (zdrop (zlen x - 20) x) = 20) by (rewrite zlen_zdrop; lia).
+  assert (R : rd_bytes (x ++ E) (zlen x + 22 - 22 - 20) 42 = Ok (zdrop (zlen x - 20) x ++ E)).
+  { rewrite rd_bytes_slice by (rewrite ?zlen_app, ?HE; lia). f_equal. unfold zslice.
+    replace (zlen x + 22 - 22 - 20) with (zlen x - 20) by lia.
+    rewrite zdrop_app_l by lia. apply ztake_all. rewrite zlen_app, H2, HE. lia. }
+  rewrite R. cbn [bind]. rewrite seq_end by (rewrite zlen_app, H2, HE; lia).
+  rewrite zdrop_exact_n by lia.
+  unfold E, eocd_of.
+  sfield apn_eocd_widths 0%nat. change (fd_end_sig_bad (A_EOCD_SIG mod 256 ^ 4)) with false. cbv iota.
+  sfield apn_eocd_widths 4%nat. sfield apn_eocd_widths 5%nat.
+  repeat sfield apn_eocd_widths 6%nat.
+  change (256 ^ 2) with 65536. change (256 ^ 4) with 4294967296.
+  rewrite !Z.mod_small by lia. unfold fd_is_zip64.
+  replace (count =? 65535) with false by lia. replace (cdsize =? 4294967295) with false by lia. replace (cdoff =? 4294967295) with false by lia.
+  reflexivity.
+Qed.
+
+Definition e64_of (creator reader count cdsize cdoff : Z) : bytes :=
+  enc_struct apn_e64_widths [A_E64_SIG; 44; creator; reader; 0; 0; count; count; cdsize; cdoff].
+Definition l64_of (off : Z) : bytes := enc_struct apn_l64_widths [A_L64_SIG; 0; off; 1].
+Lemma e64_len a b c d e : zlen (e64_of a b c d e) = 56.
+Proof. unfold e64_of. rewrite zlen_enc_struct; [reflexivity|reflexivity|unfold apn_e64_widths; wsok]. Qed.
+Lemma l64_len a : zlen (l64_of a) = 20.
+Proof. unfold l64_of. rewrite zlen_enc_struct; [reflexivity|reflexivity|unfold apn_l64_widths; wsok]. Qed.
+
+(* ZIP64 end record + locator present: whatever mix of saturated / plain fields the end record holds *)
+Lemma find_directory_zip64 : forall x cr rd count cdsize cdoff c16 s32 o32,
+  zlen x = cdoff + cdsize -> 0 <= cdoff -> 0 <= cdsize -> cdoff + cdsize < 2 ^ 63 ->
+  0 <= c16 < 65536 -> 0 <= s32 < 4294967296 -> 0 <= o32 < 4294967296 ->
+  (fd_is_zip64 c16 s32 o32 = false -> o32 = cdoff) ->
+  let z := x ++ e64_of cr rd count cdsize cdoff ++ l64_of (cdoff + cdsize) ++ eocd_of c16 s32 o32 in
+  find_directory (rd_bytes z) (zlen z) = Ok cdoff.
+Proof.
+  intros x cr rd count cdsize cdoff c16 s32 o32 Hx Ho Hs Hbig Hc16 Hs32 Ho32 Hplain z.
+  set (E64 := e64_of cr rd count cdsize cdoff) in *. set (L := l64_of (cdoff + cdsize)) in *. set (E := eocd_of c16 s32 o32) in *.
+  pose proof (e64_len cr rd count cdsize cdoff) as H64. pose proof (l64_len (cdoff + cdsize)) as HL. pose proof (eocd_len c16 s32 o32) as HE.
+  fold E64 in H64. fold L in HL. fold E in HE.
+  assert (Hz : zlen z = zlen x + 98) by (unfold z; rewrite !zlen_app, H64, HL, HE; lia).
+  unfold find_directory, fd_pos.
+  change (directoryEndLen + directory64LocLen) with 42. change directoryEndLen with 22. change directory64LocLen with 20.
+  assert (R : rd_bytes z (zlen z - 22 - 20) 42 = Ok (L ++ E)).
+  { replace (zlen z - 22 - 20) with (zlen x + 56) by lia. unfold z.
+    replace (x ++ E64 ++ L ++ E) with ((x ++ E64) ++ (L ++ E) ++ []) by (now rewrite app_nil_r, <- !app_assoc).
+    apply rd_bytes_mid; rewrite ?zlen_app, ?H64, ?HL, ?HE; lia. }
+  rewrite R. cbn [bind].
+  rewrite seq_loc, seq_end by (rewrite zlen_app, HL, HE; lia).
+  rewrite zdrop_exact_n, ztake_exact_n by lia.
+  unfold E at 1 2 3 4, eocd_of.
+  sfield apn_eocd_widths 0%nat. change (fd_end_sig_bad (A_EOCD_SIG mod 256 ^ 4)) with false. cbv iota.
+  sfield apn_eocd_widths 4%nat. sfield apn_eocd_widths 5%nat. sfield apn_eocd_widths 6%nat.
+  change (256 ^ 2) with 65536. change (256 ^ 4) with 4294967296.
+  rewrite !Z.mod_small by lia.
+  destruct (fd_is_zip64 c16 s32 o32) eqn:Ez.
+  - unfold L at 1 2, l64_of.
+    sfield apn_l64_widths 0%nat. change (fd_loc_sig_bad (A_L64_SIG mod 256 ^ 4)) with false. cbv iota.
+    sfield apn_l64_widths 2%nat. change (256 ^ 8) with (2 ^ 64). rewrite Z.mod_small by lia. rewrite to_i64_small by lia.
+    assert (R2 : rd_bytes z (cdoff + cdsize) directory64EndLen = Ok E64).
+    { unfold z. apply rd_bytes_mid; [lia|now rewrite H64]. }
+    rewrite R2. cbn [bind]. unfold E64, e64_of.
+    sfield apn_e64_widths 0%nat. change (fd_end64_sig_bad (A_E64_SIG mod 256 ^ 4)) with false. cbv iota.
+    sfield apn_e64_widths 9%nat. change (256 ^ 8) with (2 ^ 64). rewrite Z.mod_small by lia. now rewrite to_i64_small by lia.
+  - unfold E, eocd_of. sfield apn_eocd_widths 6%nat. change (256 ^ 4) with 4294967296. rewrite Z.mod_small by lia.
+    now rewrite Hplain.
+Qed.
